@@ -46,15 +46,27 @@ Example every_scan_bounded_hyp :
 Proof. exact slf_witness. Qed.
 
 (* ---- metric scripts (range / vector aggregations, quantile, topk; b-c08's planner model) ---------------
-   judged against the context window widened below to the enclosing 15-second storage boundary (win15:
-   lower bounds may start at the 15 s boundary at or before From; the roll-up read ends at the 15 s boundary
-   at or before To).  (a) EVERY metric script: every read is bounded *)
+   judged against win15: raw tables are read from From exactly; the read of the roll-up table metrics_15s - a SLOT table
+   (Scans.CSlot: rows stamped with the start of their 15-second slot, judged by slot_bounded at slot granularity) - starts
+   with the slot that holds From and ends with the last whole slot at or before To.  (a) EVERY metric script: every read is bounded *)
 Theorem every_metric_scan_bounded : forall info s fin c p q st' p',
   ctx_tables info c -> 0 <= c_from_ns c -> 0 <= c_to_ns c ->
   plan_metric s fin = Some p -> process p c pst0 = Some (q, st', p') ->
   Forall (scan_bounded info (win15 c)) (scans q).
 Proof. exact metric_scans_bounded_all. Qed.
 Print Assumptions every_metric_scan_bounded.
+
+(* (a') never miss data inside the window on the roll-up shortcut (round 6): for every instant t of [From, 15-second floor of
+   To) the roll-up row that holds t passes every timestamp conjunct of every slot-table read of the plan *)
+Theorem metric_rollup_every_slot_read : forall info s fin c p q st' p' t,
+  ctx_tables info c -> 0 <= c_from_ns c -> 0 <= c_to_ns c ->
+  plan_metric s fin = Some p -> process p c pst0 = Some (q, st', p') ->
+  c_from_ns c <= t < fl15 (c_to_ns c) ->
+  Forall (fun sc => forall k, ti_class (info (sc_table sc)) = CSlot k -> 0 < k ->
+            (forall lo, has_bnd sc (TsLo lo) -> lo <= fl_slot k t) /\ (forall hi, has_bnd sc (TsHi hi) -> fl_slot k t < hi))
+         (scans q).
+Proof. exact metric_rollup_reads_every_slot. Qed.
+Print Assumptions metric_rollup_every_slot_read.
 
 (* (b) a metric script that is not planned on the 15-second roll-up table is bounded by the context window
    itself, without widening *)
@@ -166,6 +178,50 @@ Theorem prom_downsample_every_scan_exact : forall re_full cluster db h ms,
   Forall (scan_bounded table_info (prom_ds_win h)) (scans (fst (querier_transpile re_full cluster db h ms))).
 Proof. exact prom_downsample_select_scans_exact. Qed.
 Print Assumptions prom_downsample_every_scan_exact.
+
+(* ---- the CHOICE between samples_v3 and the roll-up (round 6, seeded change C13-f) ----
+   metrics_15s is a slot table: scan_bounded judges its reads by slot_bounded, so prom_every_scan_bounded above holds only
+   because CLokiQuerier.transpileLabelMatchers (PromSel.use_raw_data) sends a Select to the roll-up for a Start on a 15-second
+   boundary to the millisecond.  (a) what the bounds mean for the data: for EVERY hint record and every instant t of
+   [Start, End] the roll-up row that holds t passes every timestamp conjunct of every slot-table read of the statement *)
+Theorem prom_select_every_slot_read : forall re_full cluster db h ms t,
+  h_start h * 1000000 <= t <= h_end h * 1000000 ->
+  Forall (fun sc => forall k, ti_class (table_info (sc_table sc)) = CSlot k ->
+            (forall lo, has_bnd sc (TsLo lo) -> lo <= fl_slot k t) /\ (forall hi, has_bnd sc (TsHi hi) -> fl_slot k t < hi))
+         (scans (fst (querier_transpile re_full cluster db h ms))).
+Proof. exact prom_select_reads_every_slot. Qed.
+Print Assumptions prom_select_every_slot_read.
+
+(* (b) the decision itself *)
+Theorem prom_rollup_only_for_slot_aligned_start : forall h,
+  use_raw_data h = false -> (h_start h * 1000000) mod slot15 = 0.
+Proof. exact rollup_start_aligned. Qed.
+Print Assumptions prom_rollup_only_for_slot_aligned_start.
+
+(* (c) and it is needed: the down-sampled statement for Start = hh:mm:ss.500 with ss a multiple of 15 (whole seconds aligned,
+   milliseconds not: what C13-f sends to the roll-up) is not bounded by the hint window - `timestamp_ns >= Start` first reads
+   the row stamped at the NEXT boundary, the samples of [Start, Start + 14.5 s) are in no row read *)
+Theorem prom_downsample_unaligned_start_is_unbounded :
+  (Z.rem (h_start unaligned_hints / 1000) 15 = 0 /\ Z.rem (h_start unaligned_hints) 15000 <> 0) /\
+  use_raw_data unaligned_hints = true /\
+  ~ Forall (scan_bounded table_info (prom_win unaligned_hints))
+      (scans (transpile_label_matchers_downsample (fun _ _ => true) unaligned_hints (prom_ctx false "qryn" unaligned_hints) [m_up; m_re])).
+Proof. exact prom_downsample_unaligned_start_refuted. Qed.
+Print Assumptions prom_downsample_unaligned_start_is_unbounded.
+
+(* (d) the two readings of slot_bounded, for any slot table and window: completeness (the row holding any instant of the window
+   passes the bounds) and confinement (a row passing the bounds holds only data of the window widened to whole slots) *)
+Theorem slot_bounded_complete : forall info w sc k t,
+  scan_bounded info w sc -> ti_class (info (sc_table sc)) = CSlot k -> 0 < k -> w_from w <= t < w_to w ->
+  (forall lo, has_bnd sc (TsLo lo) -> lo <= fl_slot k t) /\ (forall hi, has_bnd sc (TsHi hi) -> fl_slot k t < hi).
+Proof. exact scan_bounded_slot_complete. Qed.
+Print Assumptions slot_bounded_complete.
+Theorem slot_bounded_confined : forall info w sc k s,
+  scan_bounded info w sc -> ti_class (info (sc_table sc)) = CSlot k -> 0 < k -> s mod k = 0 ->
+  (forall lo, has_bnd sc (TsLo lo) -> lo <= s) -> (forall hi, has_bnd sc (TsHi hi) -> s < hi) ->
+  fl_slot k (w_lo_min w) <= s /\ s + k <= cl_slot k (w_hi_max w + 1).
+Proof. exact scan_bounded_slot_confined. Qed.
+Print Assumptions slot_bounded_confined.
 
 (* both transpilers under any context whose tables are classified as the schema has them *)
 Theorem prom_transpilers_every_scan_bounded : forall info c W re_full h ms,
@@ -340,8 +396,15 @@ Example prom_guards_met :
   Nat.leb 5 (List.length (scans (fst (querier_transpile (fun _ _ => true) true "qryn" raw_hints [m_up; m_re])))) = true /\
   Nat.leb 5 (List.length (scans (fst (querier_transpile (fun _ _ => true) false "qryn" ds_hints [m_up; m_re])))) = true.
 Proof. exact prom_examples. Qed.
-Example prom_ctx_window_met : forall cluster db h, ctx_tables table_info (prom_ctx cluster db h) /\ pwin_ok true true (prom_ctx cluster db h) (prom_win h).
+Example prom_ctx_window_met : forall cluster db h,
+  ctx_tables table_info (prom_ctx cluster db h) /\ pwin_ok true (negb (use_raw_data h)) (prom_ctx cluster db h) (prom_win h).
 Proof. intros. split; [apply prom_ctx_tables | apply prom_win_ok]. Qed.
+(* the slot theorems speak about statements that do read a slot table *)
+Example slot_reads_exist :
+  reads_slot_table (fst (querier_transpile (fun _ _ => true) false "qryn" ds_hints [m_up; m_re])) = true /\
+  reads_slot_table (fst (querier_transpile (fun _ _ => true) true "qryn" ds_hints [m_up; m_re])) = true /\
+  match m15_result with Some (q, _, _) => reads_slot_table q | None => false end = true.
+Proof. exact slot_examples. Qed.
 Example label_guards_met :
   (match multi_stream_select cluster_ctx [[m_ab]; [m_ab]] with
    | Some q => Nat.leb 3 (List.length (scans (series_planner cluster_ctx q))) && Nat.leb 3 (List.length (scans (values_planner std_ctx "job"%string (Some q))))
